@@ -335,6 +335,15 @@ let parse_hops (toks : string list) : ApiHist.hop list * string list =
     go (int_of_string n) r []
   | [] -> failwith "hops"
 
+(* nthreads, then per thread: count and calls; result: all calls in thread-major order *)
+let parse_thread_progs (toks : string list) : ApiHist.hop list =
+  match toks with
+  | n :: r ->
+    let rec go k r acc = if k = 0 then acc else
+        let (ops, r') = parse_hops r in go (k - 1) r' (acc @ ops) in
+    go (int_of_string n) r []
+  | [] -> failwith "thread programs"
+
 let rec string_of_hev (h : HashEq.hev) : string =
   match h with
   | HashEq.HB t -> "b:" ^ hex_of_text t
@@ -544,6 +553,13 @@ let model_case (toks : string list) : string =
     let (ops, _) = parse_hops r1 in
     let (ans, ref) = if k = "thist" then ApiHist.api_thist s ops else ApiHist.api_chist s ops in
     answers_kv "a" ans ^ " " ^ answers_kv "r" ref
+  | "fhist" :: rest ->
+    (* free-running threads on one shared object: the model runs the thread-major interleaving;
+       Props/C18.v C18_free_running_observers: every other interleaving gives every thread the same *)
+    let (s, r1) = parse_src rest in
+    let ops = parse_thread_progs r1 in
+    let (ans, ref) = ApiHist.api_thist s ops in
+    answers_kv "a" ans ^ " " ^ answers_kv "r" ref
   | "pair" :: rest ->
     let (_, a, opsa, b, opsb) = parse_pair rest in
     let o = ApiHist.api_pair a opsa b opsb in
@@ -605,6 +621,11 @@ let check_case (prop : string) (toks : string list) (kvs : (string * string) lis
   | ("thist" | "chist") :: rest ->
     let (s, r1) = parse_src rest in
     let (ops, _) = parse_hops r1 in
+    if has_panic kvs then panic_verdict [s] else
+    verdict (ApiCheck.api_check_hist s ops (parse_answers kvs "a" ops) (parse_answers kvs "r" ops))
+  | "fhist" :: rest ->
+    let (s, r1) = parse_src rest in
+    let ops = parse_thread_progs r1 in
     if has_panic kvs then panic_verdict [s] else
     verdict (ApiCheck.api_check_hist s ops (parse_answers kvs "a" ops) (parse_answers kvs "r" ops))
   | "pair" :: rest ->
